@@ -415,6 +415,9 @@ class MayRaise:
             return NARROW_BY_ARG.get((key, "builtins.str"), raises)
         if key == "builtins.next" and len(call.args) >= 2:
             return set()  # next(it, default) never raises StopIteration
+        if key == "builtins.dict" and call.args and (isinstance(call.args[0], (ast.Dict, ast.DictComp)) or (
+                isinstance(call.args[0], ast.Call) and isinstance(call.args[0].func, ast.Attribute) and call.args[0].func.attr in ("items", "copy"))):
+            return set()  # dict(mapping.items()) / dict(mapping.copy()) / dict({...}) cannot fail on shape
         if call.args:
             k = self._isinstance_kind(fi, call, call.args[0])
             if k and (key, k) in NARROW_BY_ARG:
